@@ -14,7 +14,7 @@
    to recompute what the form does not carry (Kind, WellKnownTypeName).  Inline (non-ref) object /
    oneof / enum fields are representable ([XInline], content not modelled): the export never
    produces them and the import cannot link them.  No proofs here. *)
-From Coq Require Import String List NArith ZArith Bool.
+From Coq Require Import String Ascii List NArith ZArith Bool.
 From J5V.lib Require Import Outcome.
 From J5V.model Require Import ReflectDesc ReflectSchema Reflect.
 From J5V.model Require Export ExportForm.
@@ -394,6 +394,25 @@ Definition rhs_table_ok (expected : string -> string -> string -> option string)
                       forallb (fun kv => match expected site typ (fst kv) with
                                          | Some want => String.eqb want (snd kv)
                                          | None => true
+                                         end) kvs end) tbl.
+
+(* every member an export literal sets is accounted for: it is a member the model copies (with the
+   expected source text) or its value is itself a composite literal "&T{}" (a wrapper or a constant,
+   whose own members are further rows of the table); a member set from any other expression (a new
+   exported field the model knows nothing about) fails the check *)
+Definition is_literal_text (v : string) : bool :=
+  match v with
+  | String "&" rest => (match rev (list_ascii_of_string rest) with
+                        | "}"%char :: "{"%char :: _ => true
+                        | _ => false
+                        end)
+  | _ => false
+  end.
+Definition export_table_complete (tbl : list (string * string * list (string * string))) : bool :=
+  forallb (fun e => match e with (site, typ, kvs) =>
+                      forallb (fun kv => match expected_export typ (fst kv) with
+                                         | Some want => String.eqb want (snd kv)
+                                         | None => is_literal_text (snd kv)
                                          end) kvs end) tbl.
 
 (* the Kind a scalar import site sets, as Go source text *)
